@@ -10,8 +10,11 @@
 // bursts, bodies with scripted duration that look at ctx immediately / late / only at the
 // end, and probe bodies that, once they notice a prioritized begin, wait for ctx.Done().
 // Scenarios run in groups of several at a time; a group is joined before the next starts.
-// A second family (genLastDone, child stage "lastdone" in the plain build) aims many invokers
-// at the instant of the last prioritized task's decrement+broadcast to expose lost wake-ups.
+// Child stage "plain" (plain build): family 2 (genLastDone) aims many invokers at the instant of
+// the last prioritized task's decrement+broadcast (lost wake-ups); family 3 (genBegin) begins
+// prioritized tasks back to back while many bodies (re)start (missed cancellations).
+// Child stage "callers" (callers.go): the real callers of the manager (fs Mount/Check/Unmount over
+// FUSE, layer.Resolver, store.LayerManager) and the begin/end balance invariant.
 //
 // Monitors (files: monitor.go = hook handler + decision, quiesce.go = state-based
 // quiescence): see NOTES.md. Which monitor state sits where with respect to AUTHORING
@@ -168,7 +171,9 @@ func main() {
 			"per-execution body scripts immediate/late/at-end/probe; non-trivial = at least one body was cancelled by a prioritized begin and its invocation "+
 			"was executed again (>=2 executions of one invocation) and every invocation completed; distinct by the scenario script. "+
 			"Second family (lastdone): silence 0-1ms, one prioritized burst whose Done lands while 8-32 invokers enter InvokeBackgroundTask within microseconds, nothing later; "+
-			"non-trivial = invocations were entered on both sides of the announcement of the last decrement. Both families must reach their own floor",
+			"non-trivial = invocations were entered on both sides of the announcement of the last decrement. "+
+			"Third family (beginrace): 16-64 invokers restart probe bodies while 30-60 prioritized tasks run back to back; non-trivial = a body running while a task was in progress (harness boundary events) was judged. "+
+			"Stage callers: fs.NewFilesystem Mount/Check/Unmount over FUSE, layer.Resolver, store.LayerManager, succeeding and failing; non-trivial = an operation that went through a prioritized section was judged for begin/end balance. Every family/stage must reach its own floor",
 		635, 13805, body)
 }
 
